@@ -238,7 +238,8 @@ func checkC12(c *Check) {
 					if arr, isA := sl.X.(*ssa.Alloc); isA {
 						for _, e := range arrayStores(arr) {
 							if nn, isC := stripConv(e).(*ssa.Call); isC && len(nn.Call.Args) == 3 {
-								if _, isPhi := nn.Call.Args[2].(*ssa.Phi); !isPhi {
+								// the availability handed on carries the results of the subtractions
+								if a2 := Sym(nn.Call.Args[2]); !strings.Contains(a2, "ResourceUnits.Sub(") {
 									ok = false
 								}
 							} else {
